@@ -4,6 +4,11 @@ import json, os
 here = os.path.dirname(os.path.abspath(__file__))
 root = os.path.dirname(here)
 src = json.load(open(os.path.join(here, 'manifest_src.json')))
+# one fragment per claimed property: tools/manifest.d/<ID>.json  {"text": ..., "note": ..., "technique"?: ...}
+src['checks'] = {}
+for fn in sorted(os.listdir(os.path.join(here, 'manifest.d'))):
+    if fn.endswith('.json'):
+        src['checks'][fn[:-5]] = json.load(open(os.path.join(here, 'manifest.d', fn)))
 ids = [json.loads(l)['id'] for l in open(os.path.join(root, 'properties.jsonl'))]
 checks = []
 for pid in ids:
